@@ -63,6 +63,7 @@ def run(ctx):
             locate_by_tag(ctx, f, b, sw, arms[v], v, buf)
     ctx.floor("R11.2", n, 11)
     r11_3(ctx, f, b, buf)
+    bulk_tags(ctx, f, sw, arms, buf)
     # poll function: end-of-stream and typestate
     for pf, sites in wakers.poll_fns(F, (UT,)):
         if pf.path.startswith("vector::sort::"):
@@ -427,3 +428,68 @@ def locate_by_tag(ctx, f, b, sw, target, v, buf):
             ok = False
         ctx.verdict(True if ok else (False if x[0] == "const" else None), "R11.7", f, "locate:%s" % v, o.built.line_at(loc), "arm %s locates its element by tag == %s" % (v, want),
                     "sort translator, arm %s: the element is located by tag == `%s` instead of %s" % (v, fmt(other, 3), want))
+
+
+def bulk_tags(ctx, f, sw, arms, buf):
+    """R11.4c: source-index tags given to whole vectors (constructor, Reset, Append): enumerate() runs over the items in SOURCE order
+    (before any sorting), without offset for the constructor and Reset, with offset = buffer length before the append for Append."""
+    F = ctx.facts
+    sites = []
+    tb = inl(F, f)  # helpers shared between the Append and Reset arms are inlined
+    sws = diff_switches(tb)
+    if sws:
+        sw2, info2 = sws[0]
+        arms2, _ = arm_targets(info2)
+        for v in ("Reset", "Append"):
+            if v in arms2:
+                sites.append((v, f, tb, arm_region(tb, sw2, arms2[v])))
+    ctor = [g for g in F.find(crate=UT, name="new") if g.path.startswith("vector::sort::SortImpl::")]
+    for g in ctor:
+        gb = inl(F, g)
+        sites.append(("new", g, gb, set(gb.reachable())))
+    n = 0
+    for what, g, gb, region in sites:
+        enums = [(blk, t) for blk, t in gb.calls(r"Iterator>?::enumerate$", blocks=sorted(region))]
+        if not enums:
+            ctx.undecided("R11.4c", g, "bulk-tags:%s" % what, g.loc(), "no enumerate() found: tagging idiom not recognised")
+            continue
+        for blk, t in enums:
+            n += 1
+            where = gb.line_at((blk, 10 ** 6))
+            src = gb.expr_of_op(t["args"][0])
+            x = strip(src, through_calls=False)
+            probs = []
+            # (1) source order: the enumerated iterator comes from the incoming vector, which has not been sorted before
+            base = None
+            if x[0] == "call" and ecall_matches(x, r"IntoIterator>?::into_iter$|::iter$|::into_iter$") and x[3]:
+                base = strip(x[3][0])
+            incoming = base is not None and (base[0] == "param" or (base[0] == "field" and base[1][0] == "downcast"))
+            if base is None:
+                ctx.undecided("R11.4c", g, "bulk-tags:%s" % what, where, "enumerate over `%s`" % fmt(src, 3))
+                continue
+            if not incoming:
+                probs.append("enumerate() runs over `%s`, not over the incoming vector in source order" % fmt(base, 3))
+            sorts = [sb for sb, st in gb.calls(r"::(sort|sort_by|sort_by_key|sort_unstable\w*)$") if gb.dominates(sb, blk) and sb != blk
+                     and strip(gb.expr_of_op(st["args"][0])) == base]
+            if sorts:
+                probs.append("the vector is sorted (bb%d) before its items are numbered: the tags are sorted positions, not source indices" % sorts[0])
+            # (2) offset added to the enumerate index
+            offs = []
+            for mb, mt in gb.calls(r"Iterator>?::map$", blocks=sorted(region)):
+                if contains(gb.expr_of_op(mt["args"][0]), lambda y: y[0] == "call" and y[4] == (blk, len(gb.blocks[blk]["stmts"]))):
+                    cl = gb.expr_of_op(mt["args"][1])
+                    for c_ in find_all(cl, lambda y: y[0] == "agg" and y[1] == "closure"):
+                        cf = F.fns.get(g.crate + "::" + c_[2])
+                        if cf is not None and cf.built and contains(cf.built.expr_of_local(0), lambda y: y[0] == "bin" and y[1].startswith("Add")):
+                            offs += list(c_[5])
+            if what in ("new", "Reset"):
+                nz = [o for o in offs if not is_const_int(o, 0)]
+                if nz:
+                    probs.append("the tags are shifted by `%s`; a %s numbers the items from 0" % (fmt(nz[0], 3), "Reset" if what == "Reset" else "fresh adapter"))
+            else:
+                ok = any(contains(o, lambda y: y[0] == "call" and ecall_matches(y, r"::len$") and strip(y[3][0])[0] == "param" and strip(y[3][0])[1] == buf) for o in offs)
+                if not ok:
+                    probs.append("appended items are not tagged with `buffer length + position`")
+            ctx.verdict(not probs, "R11.4c", g, "bulk-tags:%s" % what, where, "%s: items are numbered in source order%s" % (what, ", offset by the previous length" if what == "Append" else " from 0"),
+                        "sort adapter, %s: %s: later index-addressed source diffs (Set/Remove/Pop*) would locate the wrong element" % (what, "; ".join(probs)))
+    ctx.floor("R11.4c", n, 3)
